@@ -136,6 +136,9 @@ func runC06(c *fw.Case) (o fw.Outcome) {
 		steps = 700
 	}
 	shadow := uint32(0)
+	if c.Idx%2 == 1 { // the downlink counter of the same UE is somewhere else: uplink protection must not depend on it
+		ue.DLCount.Set(uint16(r.Intn(1<<16)), uint8(r.Intn(256)))
+	}
 	if c.Idx%8 == 7 { // start shortly before the 24-bit wrap
 		ue.ULCount.Set(0xffff, 0xf0)
 		shadow = 0xfffff0
